@@ -402,7 +402,7 @@ def resource_family(deep_tier):
     out = []
     for name, f in BIG.items():
         for d in sizes:
-            if name.startswith('big-') and d > 20000 and not deep_tier:
+            if name.startswith('big-') and d > 5000 and not deep_tier:
                 continue
             out.append(f(d))
     return out
@@ -820,7 +820,7 @@ def run(ctx):
     evaluate_conn(ctx, res, cases, 'odd-ids')
     res['scopes']['odd_id_messages'] = {'messages': len(odd), 'cases': len(cases)}
     big = resource_family(ctx.deep)
-    states = STATES if ctx.deep else ('empty', 'mixed')
+    states = STATES if ctx.deep else ('mixed',)
     cases = [(pn, setup_for(pn, st), m) for m in big for pn in cc.PROTO_NAMES for st in states]
     evaluate_conn(ctx, res, cases, 'resource-limits')
     res['scopes']['resource_limit_messages'] = {'messages': len(big), 'cases': len(cases)}
